@@ -440,12 +440,39 @@ SlcInner == {J("a"), JJ("a", "b"), <<"ornot", J("b")>>, <<"any">>, <<"collect", 
 SlcTemplates == {<<"then", <<"toslice", x>>, RestCap>> : x \in SlcInner}
                 \cup {<<"then", J("a"), <<"then", <<"toslice", x>>, RestCap>>>> : x \in SlcInner}
                 \cup {<<"then", <<"mw", <<"toslice", x>>>>, <<"toslice", RestCap>>>> : x \in SlcInner}
-Templates(fam) == CASE fam = "memoT" -> MemoTemplates [] fam = "cfgT" -> CfgTemplates [] fam = "nstT" -> NstTemplates [] fam = "progT" -> ProgTemplates [] fam = "slcT" -> SlcTemplates [] fam = "extT" -> ExtTemplates [] fam = "gapT" -> GapTemplates [] fam = "gapTi" -> {g \in GapTemplates : ~HasOp(g, {"any", "not"})} [] fam = "rcvE" -> RcvETemplates [] fam = "stat" -> StatGrammars [] fam = "rcvN" -> RcvNTemplates [] fam = "txt" -> TxtTemplates [] fam = "txtc" -> TxtCTemplates
+(* The repository's own grammars, transcribed over small alphabets (examples/json.rs, examples/brainfuck.rs, the   *)
+(* pinned tests exponential / left_recursive / err_prio_1 / zero_copy, a nano_rust-like block): how the combinators   *)
+(* work TOGETHER -- recursion through separated_by whose separator recovers, delimiters whose closing parser          *)
+(* recovers twice, nested_delimiters behind two more strategies, padding, labels, memoized left recursion             *)
+ExIgnAny == <<"ignored", <<"any">>>>
+ExSep(cl) == <<"recover", <<"tpadded", J(",")>>, <<"retry", ExIgnAny, <<"ignored", <<"oneof", <<",", cl>>>>>>>>>>
+ExClose(cl) == <<"recover", <<"recover", <<"ignored", J(cl)>>, <<"via", <<"end">>>>>>, <<"retry", ExIgnAny, <<"end">>>>>>
+ExArr == <<"delim", <<"tpadded", <<"collect", <<"sep", Ref1, ExSep("]"), 0, Inf, FALSE, TRUE>>, "vec">>>>, J("["), ExClose("]")>>
+ExJsonAlts == << <<"to", J("n"), "null">>, <<"map", TInt("10"), "number">>, <<"map", ExArr, "arr">> >>
+ExJson == <<"rec", <<"tpadded", <<"recover", <<"recover", <<"choice", ExJsonAlts>>, NDStrat(<< <<"[", "]">> >>)>>,
+                                            <<"retry", ExIgnAny, <<"ignored", <<"oneof", <<",", "]">>>>>>>>>>>>>>
+ExJsonPlain == <<"rec", <<"tpadded", <<"choice", ExJsonAlts>>>>>>         \* the same grammar without the outer strategies
+ExBf == <<"rec", <<"collect", <<"rep", <<"recover", <<"or", <<"choice", << <<"to", J("+"), "inc">>, <<"to", J("-"), "dec">> >> >>,
+                                                            <<"map", <<"delim", Ref1, J("["), J("]")>>, "loop">>>>,
+                                          NDStrat(<< <<"[", "]">> >>)>>, 0, Inf>>, "vec">>>>
+ExWord == <<"collect", <<"rep", <<"filter", <<"any">>, "aidstart">>, 1, Inf>>, "str">>
+ExAtomP == <<"or", ExWord, <<"delim", Ref1, J(LP), J(RP)>>>>
+ExExponential == <<"rec", <<"or", <<"memo", <<"map", <<"then", <<"theni", ExAtomP, J("+")>>, ExAtomP>>, "cat">>>>, ExAtomP>>>>
+ExLeftRec == <<"rec", <<"or", <<"memo", <<"map", <<"then", <<"theni", Ref1, J("+")>>, Ref1>>, "cat">>>>, ExWord>>>>
+ExErrPrio == <<"trymap", <<"choice", << <<"ignored", JJ("a", "b")>>, <<"empty">> >> >>, "F">>
+ExZeroCopy == <<"collect", <<"rep", <<"tpadded", <<"or", <<"mw", <<"toslice", <<"run", <<"rep", <<"filter", <<"any">>, "aidstart">>, 1, Inf>>>>>>>>,
+                                                   <<"mw", TInt("10")>>>>>>, 0, Inf>>, "vec">>
+ExBlock == <<"rec", <<"label", <<"delim", <<"collect", <<"sep", <<"or", Ref1, <<"label", TAIdent, "ident", FALSE>>>>,
+                                                            <<"tpadded", J(",")>>, 0, Inf, TRUE, TRUE>>, "vec">>, J(LP),
+                                  <<"recover", <<"ignored", J(RP)>>, <<"skipuntil", ExIgnAny, <<"end">>>>>>>>, "block", TRUE>>>>
+ExTemplates == {ExJson, ExJsonPlain, ExBf, ExExponential, ExErrPrio, ExZeroCopy, ExBlock}
+ExLTemplates == {ExLeftRec}
+Templates(fam) == CASE fam = "memoT" -> MemoTemplates [] fam = "cfgT" -> CfgTemplates [] fam = "nstT" -> NstTemplates [] fam = "progT" -> ProgTemplates [] fam = "slcT" -> SlcTemplates [] fam = "extT" -> ExtTemplates [] fam = "gapT" -> GapTemplates [] fam = "gapTi" -> {g \in GapTemplates : ~HasOp(g, {"any", "not"})} [] fam = "rcvE" -> RcvETemplates [] fam = "stat" -> StatGrammars [] fam = "rcvN" -> RcvNTemplates [] fam = "exT" -> ExTemplates [] fam = "exL" -> ExLTemplates [] fam = "txt" -> TxtTemplates [] fam = "txtc" -> TxtCTemplates
                     \* byte inputs have no text::newline; the radix family looks at int / digits only
                     [] fam = "txtb" -> {g \in TxtTemplates \cup TxtCTemplates : ~HasOp(g, {"newline"}) /\ g \notin {TUKw(<<"E", "a">>), <<"then", TUKw(<<"E", "a">>), RestCap>>}}
                     [] fam = "txtr" -> {<<"then", tp, RestCap>> : tp \in {TDigits(r) : r \in {"2", "8", "10", "16", "36"}} \cup {TInt(r) : r \in {"2", "8", "10", "16", "36"}}} [] fam = "drpT" -> DrpTemplates [] fam = "rcvT" -> RcvTemplates [] fam = "lblT" -> LblTemplates
                     [] fam = "pratt" -> PrattTemplates [] fam = "prattP" -> PrattPTemplates [] fam = "prattM" -> PrattMTemplates [] fam = "prattRec" -> PrattRTemplates [] fam = "rec" -> RecTemplates [] fam = "lrec" -> LRecTemplates [] fam = "repT" -> RepTemplates
-TemplateFams == {"progT", "cfgT", "nstT", "rec", "lrec", "repT", "pratt", "prattP", "prattM", "prattRec", "memoT", "rcvT", "lblT", "drpT", "txt", "txtc", "txtb", "txtr", "gapT", "gapTi", "rcvN", "stat", "rcvE", "extT", "slcT"}
+TemplateFams == {"exT", "exL", "progT", "cfgT", "nstT", "rec", "lrec", "repT", "pratt", "prattP", "prattM", "prattRec", "memoT", "rcvT", "lblT", "drpT", "txt", "txtc", "txtb", "txtr", "gapT", "gapTi", "rcvN", "stat", "rcvE", "extT", "slcT"}
 
 (* Instrumentation (C01, C18): every node of a grammar is wrapped in probe(enter).ignore_then(node).then_ignore(   *)
 (* probe(exit)); a probe consumes nothing, never fails and logs (id, cursor, inspector state, context), so the   *)
@@ -468,7 +495,7 @@ InstrFams == {"pegI", "emitI"}
 BaseFam == IF Fam = "pegI" THEN "peg" ELSE "emit"
 
 Grammars == IF Fam \in InstrFams THEN {Instr(g, <<>>) : g \in {x \in UNION {GSz(BaseFam, n) : n \in 1..MaxSize} : WF(x)}}
-            ELSE IF Fam \in TemplateFams THEN {g \in Templates(Fam) : Fam = "lrec" \/ WF(g)}
+            ELSE IF Fam \in TemplateFams THEN {g \in Templates(Fam) : Fam \in {"lrec", "exL"} \/ WF(g)}
             ELSE {g \in UNION {GSz(Fam, n) : n \in 1..MaxSize} : WF(g)}
 
 RECURSIVE InputSeqs(_)
